@@ -123,14 +123,14 @@ def _worker_init(environ: dict, syspath: list[str]) -> None:
     sys.dont_write_bytecode = True
 
 
-def _run_shard(modname: str, shard: Any, ctx: Ctx) -> dict:
+def _run_shard(modname: str, shard: Any, ctx: Ctx, only: Any = None) -> dict:
     import shutil
 
     t0 = time.time()
     try:
         mod = importlib.import_module(modname)
         res = ShardResult()
-        mod.run_shard(shard, ctx, res, None)
+        mod.run_shard(shard, ctx, res, only)
         out = res.__dict__.copy()
         out["_wall"] = time.time() - t0
         return out
@@ -141,6 +141,30 @@ def _run_shard(modname: str, shard: Any, ctx: Ctx) -> dict:
         root = Path(ctx.scratch)
         for d in root.glob(f"*-{os.getpid()}-*"):
             shutil.rmtree(d, ignore_errors=True)
+
+
+STALL_TIMEOUT = float(os.environ.get("VF_STALL_TIMEOUT", "2400"))
+
+
+def _completed_or_stalled(futs: dict, ex):
+    """as_completed with a watchdog: if no shard finishes for STALL_TIMEOUT seconds (a worker deadlocked, e.g. in malloc after heap corruption, or
+    loops forever), the pool's processes are killed; the shards that were running or waiting are then re-run one per process with a time limit."""
+    from concurrent.futures import FIRST_COMPLETED, wait
+
+    pending = set(futs)
+    last = time.time()
+    while pending:
+        done, pending = wait(pending, timeout=15, return_when=FIRST_COMPLETED)
+        if done:
+            last = time.time()
+            yield from done
+        elif time.time() - last > STALL_TIMEOUT:
+            for p in list(getattr(ex, "_processes", {}).values()):
+                try:
+                    p.kill()
+                except Exception:  # noqa: BLE001, S110
+                    pass
+            last = time.time()  # the broken pool now fails every pending future; they are collected on the next rounds
 
 
 def run_shards(modname: str, shards: list, ctx: Ctx, nworkers: int) -> tuple[ShardResult, list[str]]:
@@ -168,10 +192,10 @@ def run_shards(modname: str, shards: list, ctx: Ctx, nworkers: int) -> tuple[Sha
         initargs=(environ, list(sys.path)),
     ) as ex:
         futs = {ex.submit(_run_shard, modname, sh, ctx): sh for sh in shards}
-        for f in as_completed(futs):
+        for f in _completed_or_stalled(futs, ex):
             try:
-                d = f.result()
-            except BaseException:  # noqa: BLE001 - a worker process died (e.g. memory corruption in compiled code)
+                d = f.result(timeout=0)
+            except BaseException:  # noqa: BLE001 - a worker process died (e.g. memory corruption in compiled code) or the pool stalled
                 unfinished.append(futs[f])
                 continue
             if "_error" in d:
@@ -190,6 +214,9 @@ def run_shards(modname: str, shards: list, ctx: Ctx, nworkers: int) -> tuple[Sha
     return total, errors
 
 
+ISOLATED_SHARD_TIMEOUT = float(os.environ.get("VF_SHARD_TIMEOUT", "900"))
+
+
 def _isolated(modname: str, shards: list, ctx: Ctx, total: ShardResult, errors: list[str], nworkers: int) -> None:
     """Re-run shards one per process after the pool broke; a shard that kills its interpreter is a violation."""
     import subprocess
@@ -205,19 +232,32 @@ def _isolated(modname: str, shards: list, ctx: Ctx, total: ShardResult, errors: 
     running: list = []
     pending = list(jobs)
     done = []
+    ndead = 0
     while pending or running:
         while pending and len(running) < nworkers:
             sh, jf, of = pending.pop(0)
             p = subprocess.Popen([sys.executable, "-m", "vf.worker", str(jf), str(of)], cwd=str(VERIF_DIR),
                                  stdout=subprocess.DEVNULL, stderr=subprocess.PIPE)
+            p._vf_started = time.time()
             running.append((p, sh, of))
         for item in list(running):
             p, sh, of = item
             if p.poll() is None:
+                # a corrupted heap can deadlock inside malloc instead of aborting: a shard that exceeds the limit is killed and reported like a crash
+                if time.time() - p._vf_started > ISOLATED_SHARD_TIMEOUT:
+                    p.kill()
                 continue
             running.remove(item)
             err = (p.stderr.read() or b"").decode(errors="replace")[-800:]
             done.append((p.returncode, sh, of, err))
+            if p.returncode != 0:
+                ndead += 1
+        if ndead >= 3 and (pending or running):
+            # the violation is established; re-running every remaining shard up to its time limit would only take hours
+            total.caps.append(f"{len(pending) + len(running)} shards were not re-run after 3 isolated shards died or hung")
+            for p, _sh, _of in running:
+                p.kill()
+            pending, running = [], []
         time.sleep(0.05)
     for rc, sh, of, err in done:
         if rc == 0 and of.exists():
@@ -230,9 +270,33 @@ def _isolated(modname: str, shards: list, ctx: Ctx, total: ShardResult, errors: 
         else:
             total.evaluations += 1
             total.violations.append(Violation(
-                {"site": "process", "symptom": "interpreter died while running the shard (crash in compiled code: out-of-bounds write?)"},
+                {"site": "process", "symptom": "interpreter died or hung while running the shard (crash in compiled code: out-of-bounds write?)"},
                 {"shard": sh, "inner": None, "no_reproduce": True},
                 f"exit status {rc}; stderr tail: {err}").to_json())
+
+
+def run_case_isolated(modname: str, shard: Any, only: Any, ctx: Ctx) -> tuple[str, ShardResult | None, str]:
+    """Re-run one case in its own interpreter (a case that corrupts memory must not take the reporting process with it).
+
+    Returns ("ok", result, ""), ("error", None, traceback) or ("died", None, stderr tail)."""
+    import subprocess
+    import tempfile
+
+    tmp = Path(tempfile.mkdtemp(prefix="case-", dir=ctx.scratch))
+    jf, of = tmp / "job.json", tmp / "out.json"
+    jf.write_text(json.dumps({"modname": modname, "shard": shard, "only": only, "ctx": ctx.__dict__,
+                              "num_threads": int(os.environ.get("NUMBA_NUM_THREADS", "1") or 1)}, default=_json_default))
+    try:
+        p = subprocess.run([sys.executable, "-m", "vf.worker", str(jf), str(of)], cwd=str(VERIF_DIR), capture_output=True, text=True, timeout=ISOLATED_SHARD_TIMEOUT)
+    except subprocess.TimeoutExpired:
+        return "died", None, f"no result within {ISOLATED_SHARD_TIMEOUT:.0f} s (killed)"
+    if p.returncode != 0 or not of.exists():
+        return "died", None, f"exit status {p.returncode}; stderr tail: {(p.stderr or '')[-600:]}"
+    d = json.loads(of.read_text())
+    if "_error" in d:
+        return "error", None, d["_error"]
+    d.pop("_wall", None)
+    return "ok", ShardResult(**d), ""
 
 
 # ---------------------------------------------------------------------------------------
